@@ -102,7 +102,8 @@ def main():
         broken.append('correspondence: ' + c.get('what', '?'))
 
     # 6. search on breakage
-    if broken and not res.oracle_failures and hasattr(mod, 'search'):
+    known_keys_early = set(e['key'] for e in common.load_known_findings(pid) if e.get('status') == 'known')
+    if broken and not [f for f in res.oracle_failures if f.get('key') not in known_keys_early] and hasattr(mod, 'search'):
         try:
             mod.search(ctx)
         except Exception:
